@@ -10,6 +10,23 @@ COMMON_ASSUMPTIONS = [
 ]
 
 PROPS = {
+    "C03": {
+        "engines": [{"name": "signhist"}],
+        "level": "exploration",
+        "technique": "seeded signing histories (sign / re-sign / serialise-and-reparse / verify) on generated PE32/PE32+ layouts under a simulated clock, judged after every step by an independent PE walker, spec-transcribed Authenticode hash and independent CMS verifier; key pool with colliding issuer/serial",
+        "design_ref": "DESIGN.md section 3 (C03), 2.4 (refpe, refcms)",
+        "level_text": ("The quantifier is over histories of a stateful object whose durable form is Bytes(); serialise-and-reparse is this library's restart and the produced bytes depend on the clock "
+                       "(signingTime). Each run draws a layout (section count/order, zero-size sections, gaps, trailing data, length mod 8, e_lfanew, SizeOfHeaders slack, directory count) or a "
+                       "repository fixture (incl. sbsign-signed ones), a simulated instant and 1-8 operations; after every step the output bytes are re-read by code that shares nothing with the "
+                       "library. Exploration: layouts and histories are sampled."),
+        "level_note": ("Trusted: refpe (hand-written header walker + hash steps 1-15 with the literal SUM_OF_BYTES_HASHED rule, cross-checked against the four digests pinned in the repository's tests), "
+                       "refcms, pegen. Content of inter-entry padding and the position of nothing else is constrained. Verify for a non-signer may return false with or without an error."),
+        "rule": ("Per run: image = pegen layout (11 of 12) or fixture; instant; key subset incl. the issuer+serial collision pair; ops Sign(k) / Reparse / ReparseViaOpen / Verify(k) / Hash / Signatures. "
+                 "Non-trivial: at least one Sign followed by a reparse. Distinct = distinct event-log hash; model states = distinct (signer sequence, length mod 8)."),
+        "exhaustive": lambda tier: False,
+        "components": {"real": REAL, "stub": "synctest fake clock, simreader as image medium, fixed key pool"},
+        "assumptions": COMMON_ASSUMPTIONS + ["RSA PKCS#1 v1.5 signing in Go is deterministic, so produced bytes are a function of the seed"],
+    },
     "C06": {
         "engines": [{"name": "varsign"},
                     {"name": "varsign_tz", "env": {"TZ": "Asia/Tokyo"}},
@@ -126,7 +143,6 @@ ENGINE_KINDS = {
 NOT_APPLICABLE = {
     "C01": "the digest is a pure function of the image bytes; no schedule, clock, fault or history enters the verdict, so there is nothing for a simulator to decide (differential testing against a spec implementation is the fitting technique)",
     "C02": "soundness of Verify is a pure function of (image bytes, certificate) over adversarially constructed inputs; forging is input construction, not an environment fault",
-    "C03": "claimed in DESIGN.md (engine signhist); check not built yet",
     "C04": "same as C02 for (*PKCS7).Verify: a pure verdict over crafted blobs",
     "C05": "acceptance of produced signatures by third-party verifiers is a pure input->output conformance claim; the only seam (signing time) does not enter the verdict",
     "C07": "encode/decode inverse is a pure codec property",
